@@ -393,10 +393,69 @@ func (c *Ctx) priorityRules(r *Report, rule string, obn *ssa.Function) {
 					continue
 				}
 				k, isC := constInt(st.Val)
-				if !isC {
+				if _, isFV := st.Addr.(*ssa.FreeVar); !isFV {
 					continue
 				}
-				if _, isFV := st.Addr.(*ssa.FreeVar); !isFV {
+				if !isC {
+					// rank form: the option's own best match is computed first (a switch, or a helper returning the
+					// rank) and recorded only if it beats the best so far
+					if relType(c, st.Val.Type()) != "int" {
+						continue
+					}
+					vt := c.term(st.Val)
+					_, okG := c.Requires(cl, isInstr(st), litIs("lt(cell:int, "+vt+")", true), nil)
+					okO := false
+					for _, in2 := range b.Instrs {
+						if s2, ok := in2.(*ssa.Store); ok && s2 != st {
+							if _, isFV := s2.Addr.(*ssa.FreeVar); isFV && c.term(s2.Val) == opt {
+								okO = true
+							}
+						}
+					}
+					r.Check(okG && okO, rule, cn, "an option replaces the best so far only with a strictly higher rank", c.ipos(st), "prio = rank REQ(prio < rank); the matched option is recorded", fmt.Sprintf("guard=%v option recorded=%v (rank %s)", okG, okO, trunc(vt, 80)))
+					for _, o := range c.originsOf(st.Val, st) {
+						ko, isK := constInt(o.Val)
+						if !isK {
+							r.Fail(rule, cn, "rank origin", c.ipos(o.At), "the rank can be "+trunc(o.Term, 60)+", not one of the documented constants")
+							continue
+						}
+						if ko == 0 {
+							continue // no match
+						}
+						ms, known := tests[ko]
+						if !known {
+							r.Fail(rule, cn, fmt.Sprintf("priority %d", ko), c.ipos(o.At), "undocumented priority constant")
+							continue
+						}
+						seenK[ko] = true
+						okT := true
+						for _, m := range ms {
+							if !c.reqAt(cl, o, m) {
+								okT = false
+							}
+						}
+						// the rank is the BEST match: every higher way of matching has failed on the way here
+						okHi := true
+						for hk, hms := range tests {
+							if hk <= ko {
+								continue
+							}
+							var negs []LitMatch
+							for _, hm := range hms {
+								hm := hm
+								negs = append(negs, func(l Lit) bool { return hm(l.Neg()) })
+							}
+							// (or the running best, tested `< this rank`, shows that no higher rank has been assigned)
+							ko := ko
+							negs = append(negs, func(l Lit) bool {
+								return l.Pos && strings.HasPrefix(l.Term, "lt(") && strings.HasSuffix(l.Term, fmt.Sprintf(", %d)", ko))
+							})
+							if !c.reqAt(cl, o, anyLit(negs...)) {
+								okHi = false
+							}
+						}
+						r.Check(okT && okHi, rule, cn, fmt.Sprintf("priority %d ← %s", ko, names[ko]), c.ipos(o.At), "REQ(name test) ∧ REQ(no higher-ranked way matches)", fmt.Sprintf("test necessary=%v higher ranks excluded=%v", okT, okHi))
+					}
 					continue
 				}
 				seenK[k] = true
